@@ -18,6 +18,9 @@ class VariantData;
 class VariantWithId;
 
 class ResourceManager {
+#ifdef BBLANCHON_ARDUINOJSON_VERIF
+  friend struct ::ArduinoJsonVerifInspector;
+#endif
   union SlotData {
     VariantData variant;
 #if ARDUINOJSON_USE_EXTENSIONS
